@@ -263,6 +263,8 @@ file_info_decode(void *coder_ptr, const lzma_allocator *allocator,
 		in_size = in_start
 			+ (size_t)(coder->file_size - coder->file_cur_pos);
 
+	VERIF_VISIT(VERIF_D_FILE_INFO_SEQ, coder->sequence);
+
 	while (true)
 	switch (coder->sequence) {
 	case SEQ_MAGIC_BYTES:
